@@ -43,6 +43,12 @@ inductive RefinedStep : VM → VM → Prop
       ¬ (hd.pos ≥ cfg.elements.size ∨ hd.status = .inactive) → cfg.elements[hd.pos]! = .other →
       NameRO f (hd.pos + 1) →
       slideStep fuel f h vm = .ok r vm' → RefinedStep vm vm'
+  | status (f : FUid) (st : FlowStatus) (i : Inst) (vm vm' : VM) :
+      findInst vm.ixs.ix f = some i → statusStepOk (absStatus i.status) (absStatus st) = true →
+      CoreVM.setFlowStatus f st vm = .ok () vm' → RefinedStep vm vm'
+  | event (e : Match.Ev) (vm vm' : VM) :
+      eventOk (absVM ν φ vm) (absEv ν e) = true →
+      CoreVM.updateActionStatusByEvent e vm = .ok () vm' → RefinedStep vm vm'
   | stopEvent (fuel : Nat) (event : Event) (uid : String) (r : Event × List String) (vm vm' : VM) :
       event.ev.name = "StopFlow" → lookupArg "flow_instance_uid" event.ev.args = some (.str uid) →
       processInternalEvent fuel event vm = .ok r vm' → RefinedStep vm vm'
@@ -59,7 +65,7 @@ inductive RefinedStep : VM → VM → Prop
 
 /-- the operations of the Lifetime machine that refined CoreVM steps map to -/
 def Covered : IOp → Prop
-  | .abort .. | .finish .. | .endScope .. | .label .. | .reactivate .. | .frame .. => True
+  | .abort .. | .finish .. | .endScope .. | .label .. | .reactivate .. | .frame .. | .status .. | .event .. => True
   | _ => False
 
 theorem okOr_ok (s t : State) (r : Except Err State) (h : r = .ok t) : okOr s r = t := by rw [h]; rfl
@@ -109,6 +115,32 @@ theorem refinedStep_is_op (hν : Function.Injective ν) (hφ : Function.Injectiv
       obtain ⟨ha, w'⟩ := corevm_other_frame ν φ f h hd.pos vm vm1 hw hro hv
       cases hr
       exact ⟨w', [], Nat.zero_le _, (by intro op hop; cases hop), by rw [ha]; rfl⟩
+  | status f st i _ _ hfi hok hr =>
+    obtain ⟨_, _, _, ha⟩ := setFlowStatus_abs ν φ hν f st vm vm' ⟨i, hfi⟩ hr
+    refine ⟨wf_setFlowStatus hw f st hr, [.status (ν f) (absStatus st)], Nat.le_refl _,
+      (by intro op hop; simp only [List.mem_singleton] at hop; subst hop; trivial), ?_⟩
+    obtain ⟨x, hx⟩ := wfi_lookup vm hw.i f i hfi
+    have hfl : (absVM ν φ vm).flows (ν f) = some (absFlow ν φ vm f x) := by rw [absVM_flows ν φ hν, hx]; rfl
+    have hstat : (absFlow ν φ vm f x).status = absStatus i.status := by simp only [absFlow, hfi]
+    rw [ha]
+    simp only [List.foldl, applyOp, hfl, hstat, hok, if_true]
+    unfold modFlow
+    rw [hfl]
+    rfl
+  | event e _ _ hok hr =>
+    obtain ⟨vm2, hrun, wa, hix, hfx, ha⟩ := corevm_update_is_op ν φ hν e vm hw.a hw.i
+    rw [hrun] at hr
+    cases hr
+    have hn := update_names ν hν e vm vm' hw.a hw.i hrun
+    refine ⟨⟨wa, ?_, ?_, ?_⟩, [.event (absEv ν e)], Nat.le_refl _,
+      (by intro op hop; simp only [List.mem_singleton] at hop; subst hop; trivial), ?_⟩
+    · unfold WFI; rw [hix, hfx]; exact hw.i
+    · intro k a hk
+      obtain ⟨y, hy, e'⟩ := hn k a hk
+      rw [e']; exact hw.g k y hy
+    · intro k x hk; rw [hfx] at hk; exact hw.n k x hk
+    · simp only [List.foldl, applyOp, hok, if_true]
+      rw [ha, cs_update, cs_absVM]
   | stopEvent fuel event uid r _ _ hname huid hr =>
     obtain ⟨_, t, ht, ha, w'⟩ := corevm_stopflow_event_is_op ν φ hν hφ fuel event vm vm' uid r hname huid hw hr
     refine ⟨w', ?_⟩
@@ -191,6 +223,22 @@ theorem flowInv_step_covered (s : State) (op : IOp) (hi : FlowInv s) (hc : Cover
     split
     · next f hf => exact hi.of_core rfl (core_setFlow s u f _ hf rfl)
     · exact hi
+  | status u st =>
+    simp only [applyOp]
+    split
+    · next f hf =>
+      split
+      · next hok => exact status_flowInv hi u f st hf hok
+      · exact hi
+    · exact hi
+  | event e =>
+    by_cases hg : eventOk s e = true
+    · have happ : applyOp s (.event e) = updateActionStatusByEvent s e := by simp only [applyOp, hg, if_true]
+      rw [happ]
+      obtain ⟨hf, _, _, ho, _⟩ := update_rel e s
+      exact hi.of_flows_eq ho hf
+    · have happ : applyOp s (.event e) = s := by simp only [applyOp, hg]; rfl
+      rw [happ]; exact hi
   | _ => exact absurd hc (by simp [Covered])
 
 /-- reachability by refined CoreVM steps -/
